@@ -114,6 +114,7 @@ type ITDump struct {
 
 type ClaimDump struct {
 	Pool     string    `json:"nodepool"`
+	PoolKeys []string  `json:"nodepoolLabelKeys"` // keys the NodePool template defines (requirements and labels)
 	Hostname string    `json:"hostname"`
 	Reqs     Reqs      `json:"requirements"` // after FinalizeScheduling, hostname placeholder re-added
 	Taints   []Taint   `json:"taints"`
